@@ -70,6 +70,13 @@ impl Stats {
     pub fn add(&mut self, id: usize, n: u64) {
         self.counters[id] += n;
     }
+    /// Count a distinct non-trivial case by its fingerprint. Bounded (per worker) so that long
+    /// thorough batches do not grow without limit; the reported number is then a lower bound.
+    pub fn note_distinct(&mut self, digest: u64) {
+        if self.distinct.len() < (1 << 21) {
+            self.distinct.insert(digest);
+        }
+    }
     pub fn note(&mut self, set: &'static str, item: &str) {
         let s = self.sets.entry(set).or_default();
         if !s.contains(item) {
